@@ -621,6 +621,5 @@ harnesses! {
     c10_alias_ri_all1 { prop: C10, feat: "c10", tier: thorough, mode: leaf, unwind: 5, caps: "drop=1" } => |s| c10::bind_alias(s, 16, 18, 2);
     c10_alias_ri_all2 { prop: C10, feat: "c10", tier: thorough, mode: leaf, unwind: 5, caps: "drop=1" } => |s| c10::bind_alias(s, 18, 20, 2);
     c10_alias_ri_all3 { prop: C10, feat: "c10", tier: thorough, mode: leaf, unwind: 5, caps: "drop=1" } => |s| c10::bind_alias(s, 20, 21, 2);
-    cond_probe_3 { prop: X08, feat: "c08", tier: thorough, mode: cond, unwind: 3, caps: "drop=1,dropdoc=1,loop:c08::reference.0=5,loop:c08::cond_n::<src::KaniSrc>.0=5,loop:c08::cond_n::<src::KaniSrc>.1=5,loop:c08::cond_n::<src::KaniSrc>.2=5,loop:c08::cond_n::<src::KaniSrc>.3=5,loop:avra_lib::parser::parse_iter.0=5,loop:avra_lib::parser::skip.0=5,loop:avra_lib::parser::skip.1=5" } => |s| c08::cond_n(s, 3);
-    cond_probe_5 { prop: X08, feat: "c08", tier: thorough, mode: cond, unwind: 3, caps: "drop=1,dropdoc=1,loop:c08::reference.0=7,loop:c08::cond_n::<src::KaniSrc>.0=7,loop:c08::cond_n::<src::KaniSrc>.1=7,loop:c08::cond_n::<src::KaniSrc>.2=7,loop:c08::cond_n::<src::KaniSrc>.3=7,loop:avra_lib::parser::parse_iter.0=7,loop:avra_lib::parser::skip.0=7,loop:avra_lib::parser::skip.1=7" } => |s| c08::cond_n(s, 5);
+    // (C08: c08.rs is kept for the record - the 3-line instance reached 8 GB after 11 min and is not registered)
 }
